@@ -37,15 +37,14 @@ def thorough_extra(prop, seed, results):
 HOOK_COMMITS = []
 
 
-def reg(pid, units, explanation, assumptions=(), level_text='', level_note='', technique='', design_ref=''):
-    PROPS[pid] = dict(units=units, explanation=explanation, assumptions=list(assumptions), level_text=level_text or explanation,
+def reg(pid, units, explanation, assumptions=(), level_text='', level_note='', technique='', design_ref='', standin_always=()):
+    PROPS[pid] = dict(standin_always=list(standin_always), units=units, explanation=explanation, assumptions=list(assumptions), level_text=level_text or explanation,
                       level_note=level_note or '; '.join(assumptions), technique=technique or 'Verus function contracts on mechanically extracted code',
                       design_ref=design_ref or 'DESIGN.md section 3 ' + pid)
 
 
 NOT_BUILT = 'planned unit not built (DESIGN.md section 8): no contract on this code is discharged yet, so the property is not claimed'
 NOT_APPLICABLE = {
-    'C02': 'a deductive proof of epsilon-closure construction over FxHashMap<BTreeSet<StateID>,_> and of partition refinement on this code is out of reach (the Kani stand-in did not terminate on a 2+2-state concat harness in 20 min); the Thompson-layer unit U-nfa is a stretch item that is not built, and alone it would not decide the property',
     'C03': 'partition refinement is written as closure chains over BTreeMap<StateID, BTreeMap<CharClassID, Vec<StateID>>>; Verus cannot ingest it without a rewrite that would be a model, and the Kani stand-in did not terminate at 3 states x 2 classes (25 min, 5.7 GB)',
     'C14': 'concurrency: Kani has no thread support and Verus would need its own permission types in place of RwLock/LazyLock/Arc (a rewrite, i.e. a model)',
     'C16': 'behaviour lives in the expansion of serde derives and in serde_json; there is no function of scnr to put a contract on',
@@ -116,4 +115,12 @@ reg('C15', ['u_ast'],
      'MultiPatternNfa::try_from_patterns / parse_regex_syntax (the path from a pattern string to try_from_ast) are not under contract'],
     technique='Verus function contract by structural recursion over the imported AST')
 
-reg('C02', ['u_nfa'], 'WORK IN PROGRESS: Thompson layer', ['partial'])
+reg('C02', ['u_nfa'],
+    'Thompson layer only, as structural refinement: every NFA combinator (new_state, add_epsilon_transition, add_transition, shift_ids/offset, append, concat, alternation, zero_or_one, one_or_more, zero_or_more) and Nfa::try_from_ast produce EXACTLY the abstract construction thompson(ast, registry) of units/u_nfa/nfa_thompson.rs (state vector, epsilon and class edges, start/end, {m,n} expansion, alternation seeded by its first branch, leaves registered left to right), for every AST whose automaton fits the 32-bit state ids; well-formedness (ids = indices, targets in range) is preserved',
+    ['NOT proved: that the language of the abstract construction is the language of the pattern (textbook theorem about thompson(), stated as assumption)',
+     'NOT under contract (bounded stand-in only, see coverage.bounded_stand_in): MultiPatternNfa::try_from_patterns (renumbering, per-pattern end states), epsilon-closure construction From<Nfa>/From<MultiPatternNfa> for CompiledDfa, Minimizer (C03), CompiledLookahead::try_from_lookahead glue',
+     'TRUSTED: CharacterClassRegistry::add_character_class returns the index of the first ComparableAst-equal entry or appends (position() with a string-comparing PartialEq); derived Clone/Default of Nfa, NfaState, Literal, Span, Ast are field-wise',
+     'the clause "the empty string is never accepted / every class referred to is registered" is a property of the compiled automaton and not decided'],
+    level_text='proof for the Thompson layer (the code implements the specified construction exactly); the rest of the build pipeline is covered only by a bounded stand-in that is run on every check and labelled as such',
+    technique='Verus function contracts against a spec-level Thompson construction (structural refinement) + bounded stand-in for the functions out of reach',
+    standin_always=['stream', 'lookahead'])
